@@ -56,7 +56,11 @@ func verif_C02_resume() {
 	readMode := verifChoice(4) // 0 all, 1 two octets, 2 nothing, 3 exactly k octets (k arbitrary, one octet per Read)
 	kstop := 0
 	if readMode == 3 {
-		kstop = nondetInt(verifBound(msgLen-3, 1), msgLen)
+		lo := verifBound(msgLen-3, msgLen-7)
+		if lo < 1 {
+			lo = 1
+		}
+		kstop = nondetInt(lo, msgLen)
 	}
 	retMode := verifChoice(3) // 0 nil, 1 SMTPError, 2 plain error
 	consume := func(r io.Reader) error {
